@@ -455,7 +455,11 @@ func runC10(c *Ctx) {
 	for _, t := range makeFamily(r, newScenGen(r, 2), 6) {
 		seeds = append(seeds, t.Data)
 	}
-	if files, _ := filepath.Glob("/repo/samples/data/current/*.bc"); len(files) > 0 {
+	repoDir := os.Getenv("VERIF_REPO")
+	if repoDir == "" {
+		repoDir = "/repo"
+	}
+	if files, _ := filepath.Glob(filepath.Join(repoDir, "samples/data/current/*.bc")); len(files) > 0 {
 		for _, f := range files {
 			if b, err := os.ReadFile(f); err == nil {
 				seeds = append(seeds, b)
